@@ -362,6 +362,21 @@ func runC19(e *Engine, r *Report, tier string) {
 	// R4
 	is := e.PkgFunc("x/ibc/middleware/types", "IntermediateSender")
 	if is == nil {
+		// renamed: the function of the middleware that derives an EVM address with the SDK's address.Hash
+		is = e.findFn(func(f *ssa.Function) bool {
+			if !strings.Contains(fnPkgPath(f), "x/ibc/middleware") || f.Signature.Results().Len() != 1 || !strings.HasSuffix(f.Signature.Results().At(0).Type().String(), "common.Address") {
+				return false
+			}
+			hit := false
+			allCalls(f, func(c ssa.CallInstruction) {
+				if cal := c.Common().StaticCallee(); cal != nil && cal.Name() == "Hash" && cal.Pkg != nil && strings.HasSuffix(cal.Pkg.Pkg.Path(), "types/address") {
+					hit = true
+				}
+			})
+			return hit
+		})
+	}
+	if is == nil {
 		r.Fail("R4", "IntermediateSender", "", "UNRESOLVED-ANCHOR")
 	} else {
 		// hash(prefix(port,channel), sender)
